@@ -74,7 +74,7 @@ class Agg:
         fired = {}
         if resp is not None:
             for k in ("io_eio", "io_short", "io_eintr", "mmaps_denied", "opens_failed_injected",
-                      "cache_drops", "opens_alt"):
+                      "cache_drops", "opens_alt", "close_ebadf_in_libs"):
                 v = resp.ctr.get(k, 0)
                 if v:
                     fired[k] = v
@@ -82,6 +82,9 @@ class Agg:
                 cur = d["api_calls"].get(a, [0, 0])
                 d["api_calls"][a] = [cur[0] + n, cur[1] + f]
             d["scon_notes"] += getattr(resp, "notes", 0)
+            if getattr(resp, "stdout_noise", None):
+                k = "library-wrote-to-stdout"
+                d["other_oracle_hits"][k] = d["other_oracle_hits"].get(k, 0) + 1
         st = o.stats
         if st is not None:
             d["steps"] += st.steps
